@@ -890,6 +890,16 @@ hwloc__xml_import_object(hwloc_topology_t topology,
   if (obj->nodeset && !obj->complete_nodeset)
     obj->complete_nodeset = hwloc_bitmap_dup(obj->nodeset);
 
+  /* check bridges, other types are not supported (and hwloc_obj_type_snprintf() asserts on them) */
+  if (obj->type == HWLOC_OBJ_BRIDGE
+      && (obj->attr->bridge.downstream_type != HWLOC_OBJ_BRIDGE_PCI
+	  || (obj->attr->bridge.upstream_type != HWLOC_OBJ_BRIDGE_HOST && obj->attr->bridge.upstream_type != HWLOC_OBJ_BRIDGE_PCI))) {
+    if (hwloc__xml_verbose())
+      fprintf(stderr, "%s: invalid bridge types %d-%d\n",
+	      state->global->msgprefix, (int) obj->attr->bridge.upstream_type, (int) obj->attr->bridge.downstream_type);
+    goto error_with_object;
+  }
+
   /* check PUs */
   if (obj->type == HWLOC_OBJ_PU) {
     /* obj->cpuset!=NULL was checked above */
